@@ -279,7 +279,7 @@ func (c *compiler) assignFn(lv *lvalue, rhs cexpr, nonBlocking bool) func(*Sim) 
 			if nonBlocking {
 				return func(s *Sim) {
 					s.nbaGen[id] = s.gen
-					s.nbaQ = append(s.nbaQ, nbaEnt{st: st, w: int32(st.width), arena: -1, val: f(s)})
+					s.nbaQ = append(s.nbaQ, nbaEnt{sid: int32(id), w: int32(st.width), arena: -1, val: f(s)})
 				}
 			}
 			return func(s *Sim) {
@@ -447,7 +447,7 @@ func (c *compiler) stmt(st Stmt) func(*Sim) {
 		return func(s *Sim) {
 			init(s)
 			for n := 0; cond(s); n++ {
-				if n > loopBound || s.err != nil {
+				if n > loopBound || s.err != nil || len(s.nbaQ) > nbaBound {
 					s.fail(ErrLoopBound)
 					return
 				}
@@ -460,7 +460,7 @@ func (c *compiler) stmt(st Stmt) func(*Sim) {
 		body := c.stmt(x.Body)
 		return func(s *Sim) {
 			for n := 0; cond(s); n++ {
-				if n > loopBound || s.err != nil {
+				if n > loopBound || s.err != nil || len(s.nbaQ) > nbaBound {
 					s.fail(ErrLoopBound)
 					return
 				}
